@@ -77,7 +77,11 @@ fn bit_content(max_n: usize) -> BoxedStrategy<crate::bitgen::BitContent> {
 }
 
 fn how_of(path: u8) -> How {
-    How::PATHS[path as usize % 3]
+    match path % 5 {
+        3 => How::CollectLoose((path / 5) % 64),
+        4 => How::CollectLoose(64 + (path / 5) % 64),
+        k => How::PATHS[k as usize],
+    }
 }
 
 /// heap bytes retained by a tree built over `s` (the boxed struct included)
@@ -99,11 +103,16 @@ fn measure_bits(kind: BitsKind, path: u8, bits: &[bool], extra_capacity: usize) 
         }
         BitsVal::Bvm(m)
     } else {
-        let (bh, wh) = match path % 4 {
+        let (bh, wh) = match path % 8 {
             0 => (BvHow::Bools, WrapHow::New),
             1 => (BvHow::Pushes, WrapHow::From),
             2 => (BvHow::Bools, WrapHow::Collect),
-            _ => (BvHow::Bools, WrapHow::From),
+            3 => (BvHow::Bools, WrapHow::From),
+            // sources with an inexact size hint
+            4 => (BvHow::BoolsLoose(path / 8), WrapHow::New),
+            5 => (BvHow::BoolsLoose(64 + path / 8), WrapHow::Collect),
+            6 => (BvHow::ExtendPieces(path / 8), WrapHow::From),
+            _ => (BvHow::PosLoose(path / 8 * 9), WrapHow::New),
         };
         BitsVal::build(kind, bh, wh, bits)
     };
@@ -112,13 +121,17 @@ fn measure_bits(kind: BitsKind, path: u8, bits: &[bool], extra_capacity: usize) 
 }
 
 fn measure_quads(kind: QuadKind, path: u8, q: &[u8]) -> (QuadVal, usize) {
-    let how = match path % 5 {
+    let how = match path % 8 {
         0 => QuadHow::FromQVector(IntTy::U8),
         1 => QuadHow::NewSlice(IntTy::U8),
         2 => QuadHow::Collect(IntTy::U8),
         // a builder whose capacity hint over-estimates the length (x2.25 / x8)
         3 => QuadHow::Builder(9),
-        _ => QuadHow::Builder(32),
+        4 => QuadHow::Builder(32),
+        // sources with an inexact size hint
+        5 => QuadHow::CollectLoose(IntTy::U8, path / 8),
+        6 => QuadHow::CollectLoose(IntTy::U8, 64 + path / 8),
+        _ => QuadHow::BuilderPieces(path / 8),
     };
     let before = live();
     let v = QuadVal::build(kind, how, q, 0);
